@@ -8,9 +8,11 @@ use samlang_heap::PStr;
 
 fn evaluate_bin_op(operator: BinaryOperator, v1: i32, v2: i32) -> Option<i32> {
   match operator {
-    BinaryOperator::MUL => Some(v1 * v2),
+    // 32-bit two's complement arithmetic, like the targets: it wraps and never aborts the compiler.
+    BinaryOperator::MUL => Some(v1.wrapping_mul(v2)),
     BinaryOperator::DIV => {
-      if v2 == 0 {
+      // INT_MIN / -1 traps at run time like a division by zero: left to the target
+      if v2 == 0 || (v1 == i32::MIN && v2 == -1) {
         None
       } else {
         Some(v1 / v2)
@@ -20,16 +22,18 @@ fn evaluate_bin_op(operator: BinaryOperator, v1: i32, v2: i32) -> Option<i32> {
       if v2 == 0 {
         None
       } else {
-        Some(v1 % v2)
+        Some(v1.wrapping_rem(v2))
       }
     }
-    BinaryOperator::PLUS => Some(v1 + v2),
-    BinaryOperator::MINUS => Some(v1 - v2),
+    BinaryOperator::PLUS => Some(v1.wrapping_add(v2)),
+    BinaryOperator::MINUS => Some(v1.wrapping_sub(v2)),
     BinaryOperator::LAND => Some(v1 & v2),
     BinaryOperator::LOR => Some(v1 | v2),
-    BinaryOperator::SHL => Some(v1 << v2),
+    BinaryOperator::SHL => Some(v1.wrapping_shl(v2 as u32)),
     BinaryOperator::SHR => {
-      Some(i32::from_be_bytes(((u32::from_be_bytes(v1.to_be_bytes())) >> v2).to_be_bytes()))
+      Some(i32::from_be_bytes(
+        (u32::from_be_bytes(v1.to_be_bytes())).wrapping_shr(v2 as u32).to_be_bytes(),
+      ))
     }
     BinaryOperator::XOR => Some(v1 ^ v2),
     BinaryOperator::LT => Some((v1 < v2) as i32),
@@ -59,7 +63,7 @@ fn merge_binary_expression(
         Some(BinaryExpression {
           operator: BinaryOperator::PLUS,
           e1: inner.e1,
-          e2: inner.e2 + outer_const,
+          e2: inner.e2.wrapping_add(outer_const),
         })
       } else {
         None
@@ -70,7 +74,7 @@ fn merge_binary_expression(
         Some(BinaryExpression {
           operator: BinaryOperator::MUL,
           e1: inner.e1,
-          e2: inner.e2 * outer_const,
+          e2: inner.e2.wrapping_mul(outer_const),
         })
       } else {
         None
@@ -82,12 +86,11 @@ fn merge_binary_expression(
     | BinaryOperator::GE
     | BinaryOperator::EQ
     | BinaryOperator::NE => {
-      if inner.operator == BinaryOperator::PLUS {
-        Some(BinaryExpression {
-          operator: outer_operator,
-          e1: inner.e1,
-          e2: outer_const - inner.e2,
-        })
+      // `x + c1 op c2` is `x op c2 - c1` only while `c2 - c1` is representable
+      if inner.operator == BinaryOperator::PLUS
+        && let Some(e2) = outer_const.checked_sub(inner.e2)
+      {
+        Some(BinaryExpression { operator: outer_operator, e1: inner.e1, e2 })
       } else {
         None
       }
